@@ -9,6 +9,7 @@ import (
 	"github.com/wmnsk/go-pfcp/message"
 
 	"github.com/free5gc/go-upf/internal/forwarder"
+	"github.com/free5gc/go-upf/internal/report"
 )
 
 // C07 (d): missing IEs. A well-formed request of the associated peer from which the solver removes
@@ -163,3 +164,65 @@ func zzC07Missing(gtp5g bool, k int) {
 
 func ZZ_C07_MissingEmpty() { zzC07Missing(false, 2+zzTier()) }
 func ZZ_C07_MissingGtp5g() { zzC07Missing(true, 2+zzTier()) }
+
+// C07 (c) through the event loop: session-level messages (Modification, Deletion, Session Report
+// Response to an outstanding report) whose header SEID is an unconstrained 64-bit value - 0, live,
+// released, beyond the table, >= 2^63, 2^64-1 are all values the solver can pick. No panic, no
+// exit; a Heartbeat is answered afterwards and the bystander is intact unless it was addressed.
+// (Which session such a SEID resolves to, and what the answer says, is C04 / C08.)
+func zzC07HeaderSEID(gtp5g bool) {
+	lp := &zzLoop{zzWorld: zzNewWorld(zzFAR, false)}
+	if gtp5g {
+		lp.s.driver = forwarder.ZZNewGtp5g()
+	} else {
+		lp.s.driver = forwarder.Empty{}
+	}
+	zzTrack(lp.s)
+	lp.s.Start(&lp.wg)
+	zzYield()
+	nid := ie.NewNodeID(zzNodeA, "", "")
+	lp.feed(zzMarshal(zzAssocReq(1, zzNodeA)), zzAddrA)
+	lp.feed(zzMarshal(zzEstReq(2, nid, ie.NewFSEID(0x70, []byte{127, 0, 0, 1}, nil), ie.NewCreateFAR(ie.NewFARID(9), ie.NewApplyAction(2)))), zzAddrA)
+	lp.feed(zzMarshal(zzEstReq(3, nid, ie.NewFSEID(0x71, []byte{127, 0, 0, 1}, nil), ie.NewCreateFAR(ie.NewFARID(8), ie.NewApplyAction(2)))), zzAddrA)
+	lp.feed(zzMarshal(zzDelReq(2, 4)), zzAddrA)
+	by, err := lp.s.lnode.Sess(1)
+	zzAssert("C07.seid.bystander", err == nil)
+	x := nondetU64("header-seid")
+	from := zzAddr(nondetChoice("from", 2))
+	kind := nondetChoice("kind", 3)
+	switch kind {
+	case 0:
+		lp.feed(zzMarshal(zzModReq(x, 5, ie.NewCreateFAR(ie.NewFARID(7), ie.NewApplyAction(2)))), from)
+	case 1:
+		lp.feed(zzMarshal(zzDelReq(x, 5)), from)
+	case 2:
+		// a report of the bystander is outstanding; its response carries the symbolic SEID
+		before := zzSentCount()
+		info := &URRInfo{}
+		info.VOLUM = true
+		by.URRIDs[1] = info
+		lp.s.NotifySessReport(report.SessReport{SEID: 1, Reports: []report.Report{report.USAReport{URRID: 1}}})
+		zzYield()
+		if zzSentCount() == before+1 {
+			h := zzParseHdr(zzSentBytes(before))
+			lp.feed(zzMarshal(message.NewSessionReportResponse(0, 0, x, h.seq, 0, ie.NewCause(ie.CauseRequestAccepted))), zzAddrA)
+		}
+	}
+	before := zzSentCount()
+	lp.feed(zzMarshal(zzHbReq(77)), zzAddrB)
+	zzAssert("C07.seid.heartbeat-answered", zzSentCount() == before+1)
+	if zzSentCount() == before+1 {
+		h := zzParseHdr(zzSentBytes(before))
+		zzAssert("C07.seid.heartbeat-response", h.ok && h.typ == 2 && h.seq == 77)
+	}
+	addressed := x == 1 || (kind == 2 && x == 0) // SEID 0 in a report response ends the reported session
+	if !addressed {
+		got, err := lp.s.lnode.Sess(1)
+		zzAssert("C07.seid.bystander-intact", err == nil && got == by && len(by.FARIDs) == 1)
+	}
+	lp.stop()
+	zzCover("C07.seid.done")
+}
+
+func ZZ_C07_HeaderSEIDEmpty() { zzC07HeaderSEID(false) }
+func ZZ_C07_HeaderSEIDGtp5g() { zzC07HeaderSEID(true) }
